@@ -1371,7 +1371,7 @@ Proof.
     exists v. split; [assumption|]. apply (capture_decoding fx NoDecode v Wv); [|assumption].
     unfold lc_ok in Lv. destruct (fx2 fx); [left; reflexivity | right]. simpl in Lv. apply negb_true_iff in Lv. exact Lv.
   - intro Hb. destruct (Hb _ Hin ltac:(first [reflexivity | assumption])) as [h ->]. simpl. eexists. split; [reflexivity|].
-    unfold create_url; simpl. split; [exact Er|]. unfold wire_path; simpl. rewrite Er, Eu. simpl.
+    unfold create_url_fx; simpl. split; [exact Er|]. unfold wire_path; simpl. rewrite Er, Eu. simpl.
     destruct (wfenc_unescape p W) as [pa Hpa]. rewrite (unescape_or_empty_some _ _ Hpa).
     apply escaped_path_valid; assumption.
 Qed.
@@ -1408,7 +1408,7 @@ Proof.
   - rewrite Forall_map. eapply Forall_impl; [|exact Pc]. intros [n v] (Wv & Lv & Gv & Pv). simpl in *.
     exists v. split; [assumption | reflexivity].
   - intro Hb. destruct (Hb _ Hin ltac:(first [reflexivity | assumption])) as [h ->]. simpl. eexists. split; [reflexivity|].
-    unfold create_url; simpl. rewrite Eu; simpl. splits; try reflexivity.
+    unfold create_url_fx; simpl. rewrite Eu; simpl. splits; try reflexivity.
     unfold wire_path, escaped_path; simpl. destruct (String.eqb (unescape_or_empty p) "*"); [reflexivity|].
     apply escape_no_enc_slash.
 Qed.
